@@ -118,6 +118,10 @@ pub struct State {
     pub fail_by_suffix_budget: Option<u32>,
     /// number of matching calls that still pass before `fail_by_suffix` starts to fire
     pub fail_by_suffix_skip: u32,
+    /// what a write failed by `fail_by_suffix` leaves in the file (see `Fault::partial`)
+    pub fail_by_suffix_partial: u8,
+    /// `partial` of the fault that made the last gated call fail
+    pub last_injected_partial: u8,
     /// if set: at every removal, the value of this clock, the path and the image right after it
     pub removal_clock: Option<&'static std::sync::atomic::AtomicU64>,
     pub removal_snaps: Vec<(u64, String, Image)>,
@@ -163,6 +167,7 @@ impl State {
                 self.fail_by_suffix_skip -= 1;
             } else if task_ok && mask & cls != 0 && what.to_string_lossy().ends_with(suffix.as_str()) {
                 self.faults_fired += 1;
+                self.last_injected_partial = self.fail_by_suffix_partial;
                 if let Some(n) = self.fail_by_suffix_budget.as_mut() {
                     *n -= 1;
                     if *n == 0 {
@@ -192,6 +197,7 @@ impl State {
             if (idx == f.at_call && !f.fired) || (f.sticky && f.fired) || (f.sticky && idx >= f.at_call) {
                 f.fired = true;
                 self.faults_fired += 1;
+                self.last_injected_partial = f.partial;
                 return Err(injected());
             }
         }
@@ -447,7 +453,7 @@ impl Handle {
         let mut failing: Option<io::Error> = None;
         let mut buf = buf;
         if let Err(e) = st.gate(class::WRITE, &self.path) {
-            let partial = st.fault.as_ref().map(|f| if f.fired { f.partial } else { 0 }).unwrap_or(0);
+            let partial = st.last_injected_partial;
             let keep = match partial {
                 1 => buf.len() / 2,
                 2 => buf.len().saturating_sub(1),
